@@ -215,9 +215,14 @@ static void add_rows(Rng& r, Data& d, std::vector<Constraint>& out, unsigned n, 
 }
 
 // ------------------------------------------------------------------ one generated case
-static void one_case(uint64_t seed, long id) {
+// phase 0: the history on one live object (construction, solves, additions);  phase 1 (a separate process, so that
+// memory damage done by the history cannot reach it): the same final data solved from scratch under every strategy.
+// The data depends on the generator only, so phase 1 re-derives it with a dry run of the history.
+static void one_case(uint64_t seed, long id, int phase) {
   Rng r(seed * 1000003ull + (uint64_t) id);
-  { OS o; o << "case " << id; J.line(o.str()); }
+  const bool live = (phase == 0);
+  if (live) { OS o; o << "case " << id; J.line(o.str()); }
+  else J.line("phase fresh");
   Data d;
   dimension_type nv = 1 + r.below(3), np = r.below(3);
   d.dim = nv + np;
@@ -230,74 +235,75 @@ static void one_case(uint64_t seed, long id) {
 
   int cut = r.below(3), piv = r.below(2);
   std::unique_ptr<PIP_Problem> p;
-  J.line("op construct");
+  if (live) J.line("op construct");
   try {
     // three construction routes: constructor with the constraints; empty + add_constraint; empty + add_constraints
     unsigned route = r.below(3);
-    if (route == 0) p.reset(make_problem(d, cut, piv));
+    if (route == 0) { if (live) p.reset(make_problem(d, cut, piv)); }
     else {
       Data e = d; e.cs.clear();
-      p.reset(make_problem(e, cut, piv));
-      if (route == 1) for (const Constraint& c : d.cs) p->add_constraint(c);
+      if (live) p.reset(make_problem(e, cut, piv));
+      if (route == 1) { if (live) for (const Constraint& c : d.cs) p->add_constraint(c); }
       else { Constraint_System s; for (const Constraint& c : d.cs) s.insert(c);
              // Constraint_System::insert may reorder/normalise: keep our copy in the system's order
              d.cs.clear(); for (Constraint_System::const_iterator i = s.begin(); i != s.end(); ++i) d.cs.push_back(*i);
-             p->add_constraints(s); }
+             if (live) p->add_constraints(s); }
     }
-  } catch (...) { J.line("exc " + pplv::exc_class() + " construct"); J.line("end"); return; }
+  } catch (...) { J.line("exc " + pplv::exc_class() + " construct"); return; }
 
   unsigned steps = r.chance(3, 5) ? 1 + r.below(3) : 0;
   bool solve_first = !r.chance(1, 6);
-  if (solve_first) { put_prob(d); solve_and_dump(*p, d, steps ? "initial" : "single", cut, piv, r.below(4)); }
+  if (solve_first) { int how = r.below(4); if (live) { put_prob(d); solve_and_dump(*p, d, steps ? "initial" : "single", cut, piv, how); } }
   for (unsigned s = 0; s < steps; ++s) {
     try {
       unsigned k = r.below(10);
       if (k < 4 || d.dim >= 5) {                       // more constraints
         std::vector<Constraint> add; add_rows(r, d, add, 1 + r.below(2), -1);
-        if (r.chance(1, 2)) { J.line("op add_constraint"); for (const Constraint& c : add) { p->add_constraint(c); d.cs.push_back(c); } }
+        if (r.chance(1, 2)) { if (live) J.line("op add_constraint"); for (const Constraint& c : add) { if (live) p->add_constraint(c); d.cs.push_back(c); } }
         else { Constraint_System cs; for (const Constraint& c : add) cs.insert(c);
-               J.line("op add_constraints");
-               p->add_constraints(cs);
+               if (live) { J.line("op add_constraints"); p->add_constraints(cs); }
                for (Constraint_System::const_iterator i = cs.begin(); i != cs.end(); ++i) d.cs.push_back(*i); }
       } else if (k < 8) {                              // new dimensions through add_space_dimensions_and_embed
         dimension_type mv = (d.nv() < 3) ? r.below(2) : 0;
         dimension_type mp = (d.np() < 2) ? r.below(2) : 0;
         if (mv + mp == 0) { if (d.nv() < 3) mv = 1; else if (d.np() < 2) mp = 1; }
         if (mv + mp > 0) {
-          { OS o; o << "op add_space_dimensions_and_embed " << mv << " " << mp; J.line(o.str()); }
-          p->add_space_dimensions_and_embed(mv, mp);
+          if (live) { OS o; o << "op add_space_dimensions_and_embed " << mv << " " << mp; J.line(o.str()); }
+          if (live) p->add_space_dimensions_and_embed(mv, mp);
           for (dimension_type i = 0; i < mv; ++i) d.is_param.push_back(false);
           for (dimension_type i = 0; i < mp; ++i) d.is_param.push_back(true);
           d.dim += mv + mp;
-          if (mp > 0 && d.big < 0 && r.chance(1, 5)) { J.line("op set_big_parameter_dimension"); p->set_big_parameter_dimension(d.dim - 1); d.big = (long) d.dim - 1; }
+          if (mp > 0 && d.big < 0 && r.chance(1, 5)) { if (live) { J.line("op set_big_parameter_dimension"); p->set_big_parameter_dimension(d.dim - 1); } d.big = (long) d.dim - 1; }
           std::vector<Constraint> add; add_rows(r, d, add, r.below(3), (long) d.dim - 1);
-          J.line("op add_constraint");
-          for (const Constraint& c : add) { p->add_constraint(c); d.cs.push_back(c); }
+          if (live) J.line("op add_constraint");
+          for (const Constraint& c : add) { if (live) p->add_constraint(c); d.cs.push_back(c); }
         }
       } else if (d.np() < 2) {                         // a new dimension turned into a parameter afterwards
-        J.line("op add_space_dimensions_and_embed 1 0 ; add_to_parameter_space_dimensions");
-        p->add_space_dimensions_and_embed(1, 0);
+        if (live) J.line("op add_space_dimensions_and_embed 1 0 ; add_to_parameter_space_dimensions");
+        if (live) p->add_space_dimensions_and_embed(1, 0);
         d.is_param.push_back(false); d.dim += 1;
         Variables_Set ps; ps.insert(Variable(d.dim - 1));
-        p->add_to_parameter_space_dimensions(ps);
+        if (live) p->add_to_parameter_space_dimensions(ps);
         d.is_param[d.dim - 1] = true;
-        if (d.big < 0 && r.chance(1, 5)) { J.line("op set_big_parameter_dimension"); p->set_big_parameter_dimension(d.dim - 1); d.big = (long) d.dim - 1; }
+        if (d.big < 0 && r.chance(1, 5)) { if (live) { J.line("op set_big_parameter_dimension"); p->set_big_parameter_dimension(d.dim - 1); } d.big = (long) d.dim - 1; }
         std::vector<Constraint> add; add_rows(r, d, add, 1 + r.below(2), (long) d.dim - 1);
-        J.line("op add_constraint");
-        for (const Constraint& c : add) { p->add_constraint(c); d.cs.push_back(c); }
+        if (live) J.line("op add_constraint");
+        for (const Constraint& c : add) { if (live) p->add_constraint(c); d.cs.push_back(c); }
       }
       if (r.chance(1, 6)) {                           // the strategy may change between solves
         cut = r.below(3); piv = r.below(2);
-        J.line("op set_control_parameter");
-        p->set_control_parameter(CUTS[cut]); p->set_control_parameter(PIVS[piv]);
+        if (live) { J.line("op set_control_parameter");
+                    p->set_control_parameter(CUTS[cut]); p->set_control_parameter(PIVS[piv]); }
       }
-    } catch (...) { J.line("exc " + pplv::exc_class() + " mutate"); J.line("end"); return; }
+    } catch (...) { J.line("exc " + pplv::exc_class() + " mutate"); return; }
     if (s + 1 == steps || !r.chance(1, 4)) {          // sometimes several additions accumulate before a solve
-      put_prob(d);
-      solve_and_dump(*p, d, (s + 1 == steps) ? "incr-final" : "incr", cut, piv, r.below(4));
+      int how = r.below(4);
+      if (live) { put_prob(d); solve_and_dump(*p, d, (s + 1 == steps) ? "incr-final" : "incr", cut, piv, how); }
     }
   }
-  if (!solve_first && steps == 0) { put_prob(d); solve_and_dump(*p, d, "single", cut, piv, r.below(4)); }
+  if (!solve_first && steps == 0) { int how = r.below(4); if (live) { put_prob(d); solve_and_dump(*p, d, "single", cut, piv, how); } }
+  if (live) { J.line("op destroy"); return; }
+  put_prob(d);
   // the same final data, solved from scratch under every strategy (same `prob` record: the reference is shared)
   for (int c = 0; c < 3; ++c) for (int v = 0; v < 2; ++v) {
     std::unique_ptr<PIP_Problem> q;
@@ -373,8 +379,8 @@ int main(int argc, char** argv) {
   bool fx = pplv::arg_long(argc, argv, "--fixed", 0) != 0;
   auto body = [&](long b) {
     struct rlimit rl; rl.rlim_cur = rl.rlim_max = (rlim_t) 1500 * 1024 * 1024; setrlimit(RLIMIT_AS, &rl);
-    if (fx) fixed(b); else one_case((uint64_t) seed, b);
+    if (fx) fixed(b); else one_case((uint64_t) seed, b / 2, (int) (b % 2));
   };
   if (fx) return pplv::run_batches(0, N_FIXED, body, (int) cpu);
-  return pplv::run_batches(first, last, body, (int) cpu);
+  return pplv::run_batches(2 * first, 2 * last, body, (int) cpu);
 }
